@@ -107,6 +107,25 @@ theorem locals_le_limit_counterexample :
     42 (by simp)
   omega
 
+/-! ## The ghost-exact fields are not read when their limit is off
+
+The model keeps `Buf.size`, `Cx.nsCarry` and the log even when the code stores nothing / 0 (plain `StringIO`,
+`get_size_of_locals()` returning 0 under a falsy limit). These are the only places that read them. -/
+
+/-- with `local_namespace_limit` `None` or `0` the test in `assign` ignores the measured size (hence the carry) -/
+theorem ns_size_unread_when_off (lim : Option Nat) (h : lim = none ∨ lim = some 0) (n m : Nat) :
+    nsOver lim n = nsOver lim m := by
+  rcases h with rfl | rfl <;> simp [nsOver]
+
+/-- without an output limit a write ignores the byte count, and a new sub-buffer does not depend on it -/
+theorem buf_size_unread_when_off (L : Limits) (hl : L.output = none) (bk : BK) (n m : Nat) (t s : Text) :
+    (match write (.real none) ⟨n, t⟩ s, write (.real none) ⟨m, t⟩ s with
+     | .ok b1, .ok b2 => b1.text = b2.text
+     | _, _ => False) ∧ subKind L bk ⟨n, t⟩ = subKind L bk ⟨m, t⟩ := by
+  constructor
+  · unfold write; by_cases hs : s = [] <;> simp [hs]
+  · simp [subKind, hl]
+
 /-! ## Non-vacuity -/
 
 /-- `{% capture c %}€{% endcapture %}{{ c }}` produces 3 bytes; under limit 3 it completes … -/
